@@ -73,11 +73,9 @@ def run(tier, only=None):
             env = {"VERIF_SHAPE": sh, "VERIF_KIND": kind, "VERIF_KB": "3" if tier == "quick" else "4", "VERIF_SB": "2" if tier == "quick" else "3"}
             for f in ["h_gather_int_int", "h_gather_int_slice", "h_gather_slice_int", "h_gather_slice_slice", "h_gather_single_int",
                       "h_gather_single_slice", "h_gather_coords"]:
-                if tier == "quick" and f == "h_gather_slice_slice":
-                    continue
                 e2 = dict(env)
                 if f == "h_gather_slice_slice":
-                    e2.update({"VERIF_KB": "2", "VERIF_SB": "1"})      # six symbolic fields: smaller ranges so that the paths can be exhausted
+                    e2.update({"VERIF_KB": "1" if tier == "quick" else "2", "VERIF_SB": "1", "VERIF_NONE_STEP": "0" if tier == "quick" else "1"})      # six symbolic fields: smaller ranges so that the paths can be exhausted
                 conds.append(runner.Cond(HF, f, (2 * T if f != "h_gather_slice_slice" else 6 * T), name="%s[%s,%s]" % (f, sh, kind), env=e2,
                                          key="gather-" + f[9:]))
     if only:
